@@ -28,7 +28,8 @@ RULE = ("hostile strings: token soups over the ACL vocabulary (keywords, operato
         "lines; given to Ace, Remark, AceGroup, Acl, Address, AddressAg, AddrGroup, Port, Protocol, Option, Wildcard and to "
         "acls/aces/addrgroups on ios, nxos and asa. judged = calls classified (returned + re-accepted / documented error); "
         "distinct non-trivial = (class, platform, generator kind, outcome, exception type)"
-        " Round 4: every documented spelling of the platform argument; group-object cycles used by an ACE.")
+        " Round 4: every documented spelling of the platform argument; group-object cycles used by an ACE."
+        " Round 5: range-only groups; one group name defined twice.")
 ASSUMPTIONS = ["documented errors are ValueError and TypeError with their subclasses (AddressValueError, NetmaskValueError, "
                "NetportsValueError)", "CPU budget 5 s per case for inputs <= 4 KB, 20 s hard limit by RLIMIT_CPU",
                "state after a raising call is not judged"]
